@@ -31,18 +31,18 @@ def decode : Bytes → Option (Nat × Nat)
     else if x < 0xF0 then
       match rest with
       | b1 :: b2 :: _ =>
-        let lo := if x == 0xE0 then 0xA0 else 0x80
-        let hi := if x == 0xED then 0x9F else 0xBF
-        if inRange lo hi b1 && isCont b2 then
+        let ok1 := if x == 0xE0 then inRange 0xA0 0xBF b1
+                   else if x == 0xED then inRange 0x80 0x9F b1 else inRange 0x80 0xBF b1
+        if ok1 && isCont b2 then
           some ((x - 0xE0) * 4096 + (b1.toNat - 0x80) * 64 + (b2.toNat - 0x80), 3)
         else none
       | _ => none
     else if x < 0xF5 then
       match rest with
       | b1 :: b2 :: b3 :: _ =>
-        let lo := if x == 0xF0 then 0x90 else 0x80
-        let hi := if x == 0xF4 then 0x8F else 0xBF
-        if inRange lo hi b1 && isCont b2 && isCont b3 then
+        let ok1 := if x == 0xF0 then inRange 0x90 0xBF b1
+                   else if x == 0xF4 then inRange 0x80 0x8F b1 else inRange 0x80 0xBF b1
+        if ok1 && isCont b2 && isCont b3 then
           some ((x - 0xF0) * 262144 + (b1.toNat - 0x80) * 4096 + (b2.toNat - 0x80) * 64 + (b3.toNat - 0x80), 4)
         else none
       | _ => none
